@@ -51,7 +51,9 @@ def gen_table(rng, n, m):
     """Rows as property bitmasks; biased to the fill patterns the properties name."""
     full = (1 << m) - 1
     pat = rng.choice(['random', 'random', 'dups', 'chain', 'nominal', 'contranominal',
-                      'sparse', 'dense', 'blocks', 'interval'])
+                      'sparse', 'dense', 'blocks', 'interval', 'nested', 'chain_antichain', 'many_dups'])
+    if n * m > 200 and pat in ('random', 'dups', 'dense', 'contranominal'):
+        pat = rng.choice(['sparse', 'nominal', 'chain', 'interval', 'blocks', 'nested', 'chain_antichain'])
     if pat == 'chain':
         rows = [(1 << min(m, (i * m) // max(1, n - 1) if n > 1 else m)) - 1 for i in range(n)]
         rng.shuffle(rows)
@@ -59,6 +61,23 @@ def gen_table(rng, n, m):
         rows = [1 << (i % m) for i in range(n)]
     elif pat == 'contranominal':
         rows = [full & ~(1 << (i % m)) for i in range(n)]
+    elif pat == 'nested':
+        # row inclusion chains with gaps, plus rows that are intersections of two others
+        rows = []
+        cur = full
+        for i in range(n):
+            if rng.random() < 0.6 and cur:
+                cur &= ~(1 << rng.randrange(m))
+            rows.append(cur if rng.random() < 0.8 else cur & rng.getrandbits(m))
+        rng.shuffle(rows)
+    elif pat == 'chain_antichain':
+        k = max(1, n // 2)
+        rows = [(1 << min(m, 1 + (i * m) // k)) - 1 for i in range(k)]
+        rows += [1 << ((i * 3 + 1) % m) | 1 for i in range(n - k)]
+        rng.shuffle(rows)
+    elif pat == 'many_dups':
+        base = [sum((rng.random() < 0.5) << j for j in range(m)) for _ in range(rng.randint(1, 3))] + [full]
+        rows = [rng.choice(base) for _ in range(n)]
     elif pat == 'blocks':
         k = rng.randint(1, max(1, m // 2))
         rows = [(((1 << k) - 1) << rng.randrange(0, m - k + 1)) for _ in range(n)]
@@ -75,7 +94,7 @@ def gen_table(rng, n, m):
             for _ in range(rng.randint(1, n)):
                 rows[rng.randrange(n)] = rows[rng.randrange(n)]
     # decorate: empty/full rows and columns, duplicated column, isolated high bit
-    for _ in range(rng.choice([0, 0, 1, 1, 2])):
+    for _ in range(rng.choice([0, 0, 1, 1, 2, 4])):
         what = rng.choice(['empty_row', 'full_row', 'empty_col', 'full_col', 'dup_col', 'dup_row',
                            'high_bit'])
         i, j = rng.randrange(n), rng.randrange(m)
@@ -101,7 +120,12 @@ def gen_shape(rng, cfg):
     r = rng.random()
     if r > 1 - cfg.get('p_medium', 0):
         # neither small nor one of the special wide shapes
-        return rng.randint(8, 16), rng.randint(5, 9)
+        if rng.random() < 0.25:
+            # both axes beyond the small range at once (two-digit positions, word boundaries on both sides);
+            # gen_table keeps such tables structured/sparse so that the lattice stays small
+            k = rng.choice([17, 31, 32, 33, 63, 64, 65])
+            return k, rng.choice([k, 12, 33])
+        return rng.randint(8, 16), rng.randint(5, 12)
     if r < cfg['p_wide']:
         big = rng.choice([33, 61, 63, 64, 65, 66, 70, 100, 127, 128, 129, 130])
         small = rng.randint(1, 4)
@@ -166,7 +190,17 @@ def generate(rng, seed, run, tier, focus='C01', xmode=False):
             labels.append(gen_labels(rng, n, m))
             li = len(labels) - 1
         rows = gen_table(rng, n, m)
-        shadow[s] = (li, n, m, len(FCA(n, m, rows).concepts()))
+        nc = len(FCA(n, m, rows).concepts())
+        for _ in range(3):
+            if nc <= 160:
+                break
+            # keep lattices of the non-small shapes small enough for a full audit after every event
+            rows = [r & rng.getrandbits(m) & rng.getrandbits(m) for r in rows]
+            nc = len(FCA(n, m, rows).concepts())
+        if nc > 160:
+            rows = [1 << (i % m) for i in range(n)]
+            nc = len(FCA(n, m, rows).concepts())
+        shadow[s] = (li, n, m, nc)
         return ['ctx_new', s, li, rows]
 
     def idxs(k, lo=0, hi=None, dup=False):
